@@ -1,6 +1,6 @@
 (* RawKV/Sequence.v — whole operation sequences: the client (with an arbitrary layout schedule
    attached to every call) against the same calls on one ordered map. *)
-From Verif Require Import RawKV.Model RawKV.ProofsStore RawKV.ProofsLoops RawKV.ProofsBatch RawKV.ProofsTop.
+From Verif Require Import RawKV.Model RawKV.ProofsStore RawKV.ProofsLoops RawKV.ProofsBatch RawKV.ProofsRounds RawKV.ProofsTop.
 
 Section Seq.
   Variable digest : list N -> list N -> N.
@@ -26,15 +26,16 @@ Section Seq.
   | RCks (c : cks)
   | RCas (prev : option (list N)) (swapped : bool).
 
-  (* the client on the region-partitioned store; None = a loop ran out of the supplied layouts *)
+  (* the client on the region-partitioned store; None = a loop ran out of the supplied layouts, or a
+     batch call returned an error (a dropped batch: C11_batch_put_partial says what holds then) *)
   Definition run_op (st : store) (o : op) : option (result * store) :=
     match o with
     | OPut k v ttl => Some (RUnit, srv_put st k v ttl)
     | OGet k => Some (RVal (srv_get st k), st)
     | ODel k => Some (RUnit, st_del st k)
-    | OBatchPut kvs sched => option_map (fun s => (RUnit, s)) (batch_put st sched kvs)
-    | OBatchGet keys sched => option_map (fun vs => (RVals vs, st)) (batch_get st sched keys)
-    | OBatchDel keys sched => option_map (fun s => (RUnit, s)) (bdel_rounds st sched keys)
+    | OBatchPut kvs sched => match batch_put st sched kvs with Some (s, true) => Some (RUnit, s) | _ => None end
+    | OBatchGet keys sched => match batch_get st sched keys with Some (Some vs) => Some (RVals vs, st) | _ => None end
+    | OBatchDel keys sched => match bdel_rounds st sched keys with Some (s, true) => Some (RUnit, s) | _ => None end
     | ODeleteRange s e Ls => option_map (fun s' => (RUnit, s')) (drange_loop st Ls s e)
     | OScan s e limit Ls => option_map (fun ps => (RPairs ps, st)) (scan st Ls s e limit)
     | OReverseScan s e limit Ls => option_map (fun ps => (RPairs ps, st)) (rscan st Ls s e limit)
@@ -83,11 +84,11 @@ Section Seq.
     - intros [= <- <-]. split; [reflexivity|apply sorted_put; exact Hs].
     - intros [= <- <-]. split; [reflexivity|exact Hs].
     - intros [= <- <-]. split; [reflexivity|apply sorted_del; exact Hs].
-    - destruct (batch_put st sched kvs) as [s1|] eqn:E; [|discriminate]. intros [= <- <-].
+    - destruct (batch_put st sched kvs) as [[s1 [|]]|] eqn:E; try discriminate. intros [= <- <-].
       destruct (c11_batch_put_last_wins _ _ _ _ Hs E) as [H1 [H2 _]]. subst s1. split; [reflexivity|exact H1].
-    - destruct (batch_get st sched keys) as [vs|] eqn:E; [|discriminate]. intros [= <- <-].
+    - destruct (batch_get st sched keys) as [[vs|]|] eqn:E; try discriminate. intros [= <- <-].
       apply batch_get_aligned in E. subst vs. split; [reflexivity|exact Hs].
-    - destruct (bdel_rounds st sched keys) as [s1|] eqn:E; [|discriminate]. intros [= <- <-].
+    - destruct (bdel_rounds st sched keys) as [[s1 [|]]|] eqn:E; try discriminate. intros [= <- <-].
       destruct (c11_batch_delete _ _ _ _ Hs E) as [H1 [H2 _]]. subst s1. split; [reflexivity|exact H1].
     - destruct (drange_loop st Ls s e) as [s1|] eqn:E; [|discriminate]. intros [= <- <-].
       destruct (c11_delete_range _ _ _ _ _ Hs E) as [H1 [H2 _]]. subst s1. split; [reflexivity|exact H1].
